@@ -666,6 +666,20 @@ pub fn dispatch(t: &[Tok]) -> String {
                         stack.push(g);
                         i += 1;
                     }
+                    "cf" => {
+                        // Clone::clone_from: the top generator becomes, in place, a copy of the one below it
+                        let k = stack.len();
+                        if k > 1 {
+                            let (lo, hi) = stack.split_at_mut(k - 1);
+                            L!(hi[0].clone_from(&lo[k - 2]));
+                        }
+                        i += 1;
+                    }
+                    "cn" => {
+                        let fresh = L!(G::new());
+                        L!(stack.last_mut().unwrap().clone_from(&fresh));
+                        i += 1;
+                    }
                     "p" => {
                         if stack.len() > 1 {
                             stack.pop();
